@@ -108,9 +108,8 @@ Definition end_ok (l : list Z) : bool := match drop_re_space l with [] => true |
 Definition py_fraction (s : string) : frres :=
   let l0 := drop_re_space (codes s) in
   let '(neg, l1) := match l0 with
-                    | 45 :: r => (true, r)
-                    | 43 :: r => (false, r)
-                    | _ => (false, l0)
+                    | c :: r => if (c =? 45)%Z then (true, r) else if (c =? 43)%Z then (false, r) else (false, l0)
+                    | [] => (false, l0)
                     end in
   let look := match l1 with
               | c :: r => PyPrims.is_digit c ||
@@ -871,203 +870,217 @@ Fixpoint let_finish (vals : list (string * item)) (early : list string) (s : pst
       let_finish r early (cache_bind v e s1)
   end.
 
+(* One iteration of get_expression's loop, over the rest of the loop [K] (K stk s = the loop
+   continued with stack stk in state s; K [] s = a nested call of get_expression).  The pieces are
+   separate definitions so that the proofs can unfold them one at a time. *)
+Section Reader.
+  Variable K : stack -> pstate -> res (option item).
+
+  Definition push_then (x : item) (stk : stack) (st : pstate) : res (option item) :=
+    match push_item x stk with
+    | Some stk' => K stk' st
+    | None => RErr EOther st
+    end.
+
+  (* _enter_let after the two opening parentheses.  Parallel let: the bound terms are read in the
+     enclosing scope and the names bound after the last binding; EXTENSION: a name that means
+     nothing in the enclosing scope is visible to the following bindings of the same let *)
+  Fixpoint let_bindings (k : nat) (stk : stack) (cur : string) (vals : list (string * item))
+                        (early : list string) (sb : pstate) {struct k} : res (option item) :=
+    match k with
+    | O => RErr EUnmodelled sb
+    | S k' =>
+        if String.eqb cur ")" then
+          do _ , sb1 <- let_finish vals early sb ;;
+          match push_items [IExitLet; IKeys (map fst vals)] stk with
+          | Some stk' => K stk' sb1
+          | None => RErr EOther sb1
+          end
+        else if negb (String.eqb cur "(") then RErr ESyntax sb
+        else
+          do vname , sb1 <- parse_atom sb ;;
+          do e , sb2 <- not_none (K [] sb1) ;;
+          let is_early := negb (str_in vname (map fst vals)) &&
+                          match cache_get vname sb2 with None => true | Some _ => false end in
+          let sb3 := if is_early then cache_bind vname e sb2 else sb2 in
+          do _ , sb4 <- consume_closing sb3 ;;
+          do c , sb5 <- next_tok sb4 ;;
+          let_bindings k' stk c (aset vname e vals) (if is_early then vname :: early else early) sb5
+    end.
+  Definition handle_let (stk : stack) (st1 : pstate) : res (option item) :=
+    do _ , st2 <- consume_opening st1 ;;
+    do _ , st3 <- consume_opening st2 ;;
+    let_bindings (fuel_of st3) stk "(" [] [] st3.
+
+  (* _enter_quantifier after the two opening parentheses *)
+  Fixpoint quant_vars (k : nat) (fa : bool) (stk : stack) (cur : string) (vrs : list (string * var))
+                      (sb : pstate) {struct k} : res (option item) :=
+    match k with
+    | O => RErr EUnmodelled sb
+    | S k' =>
+        if String.eqb cur ")" then
+          match push_items [IExitQuant; IQuant fa; IVars vrs] stk with
+          | Some stk' => K stk' sb
+          | None => RErr EOther sb
+          end
+        else if negb (String.eqb cur "(") then RErr ESyntax sb
+        else
+          do vname , sb1 <- parse_atom sb ;;
+          do pt , sb2 <- parse_ty (fuel_of sb1) sb1 ;;
+          match pt with
+          | PTy t =>
+              do v , sb3 <- quantified_var vname t sb2 ;;
+              let var := match v with T (OSymbol n ty) _ => (n, ty) | _ => (vname, t) end in
+              let sb4 := cache_bind vname (ITerm v) sb3 in
+              do _ , sb5 <- consume_closing sb4 ;;
+              do c , sb6 <- next_tok sb5 ;;
+              quant_vars k' fa stk c (vrs ++ [(vname, var)]) sb6
+          | _ => RErr EValue sb2
+          end
+    end.
+  Definition handle_quant (fa : bool) (stk : stack) (st1 : pstate) : res (option item) :=
+    do _ , st2 <- consume_opening st1 ;;
+    do _ , st3 <- consume_opening st2 ;;
+    quant_vars (fuel_of st3) fa stk "(" [] st3.
+
+  (* _enter_annotation *)
+  Definition handle_annot (stk : stack) (st1 : pstate) : res (option item) :=
+    do e , st2 <- not_none (K [] st1) ;;
+    match e with
+    | ITerm term =>
+        do tk2 , st3 <- next_tok st2 ;;
+        do _ , st4 <- annot_loop (fuel_of st3) tk2 st3 ;;
+        match stk with
+        | [] :: _ => push_then (IThunkTerm term) stk (push_back ")" st4)
+        | _ => RErr EOther st4
+        end
+    | _ => RErr EOther st2
+    end.
+
+  (* _smtlib_underscore *)
+  Definition int_arg (st : pstate) (k : Z -> pstate -> res (option item)) : res (option item) :=
+    do a , st' <- parse_atom st ;;
+    match py_int a with Some z => k z st' | None => RErr ESyntax st' end.
+  Definition handle_underscore (stk : stack) (st1 : pstate) : res (option item) :=
+    do op , st2 <- parse_atom st1 ;;
+    if String.eqb op "extract" then
+      do send , st3 <- parse_atom st2 ;;
+      do sstart , st4 <- parse_atom st3 ;;
+      match py_int sstart, py_int send with
+      | Some a, Some b => push_then (IThunkIdx (FExtract a b)) stk st4
+      | _, _ => RErr ESyntax st4
+      end
+    else if String.eqb op "zero_extend" then
+      int_arg st2 (fun z st => push_then (IThunkIdx (FZext z)) stk st)
+    else if String.eqb op "repeat" then
+      int_arg st2 (fun z st => push_then (IThunkIdx (FRepeat z)) stk st)
+    else if String.eqb op "rotate_left" then
+      int_arg st2 (fun z st => push_then (IThunkIdx (FRol z)) stk st)
+    else if String.eqb op "rotate_right" then
+      int_arg st2 (fun z st => push_then (IThunkIdx (FRor z)) stk st)
+    else if String.eqb op "sign_extend" then
+      int_arg st2 (fun z st => push_then (IThunkIdx (FSext z)) stk st)
+    else if starts_with "bv" op then
+      match py_int (drop 2 op) with
+      | None => RErr ESyntax st2
+      | Some v =>
+          int_arg st2 (fun w st =>
+            match mk_bv v w with
+            | Some c => push_then (IThunkTerm c) stk st
+            | None => RErr EValue st
+            end)
+      end
+    else if String.eqb op "to_bv" then
+      match stk with
+      | [] => RErr EOther st2
+      | _ :: stk1 =>
+          int_arg st2 (fun w st =>
+            do _ , st3 <- consume_closing st ;;
+            do fnv , st4 <- K [] st3 ;;
+            match fnv with
+            | Some (ITerm (T (OIntC v) _)) =>
+                match (if (0 <=? v)%Z then mk_bv v w else mk_sbv v w) with
+                | Some c => push_then (IThunkTerm c) stk1 st4
+                | None => RErr EValue st4
+                end
+            | Some (ITerm _) => RErr ESyntax st4
+            | _ => RErr EOther st4
+            end)
+      end
+    else RErr ESyntax st2.
+
+  (* _enter_smtlib_as *)
+  Definition handle_as (stk : stack) (st1 : pstate) : res (option item) :=
+    do what , st2 <- parse_atom st1 ;;
+    do pt , st3 <- parse_ty (fuel_of st2) st2 ;;
+    match pt with
+    | PTy t =>
+        let it := if String.eqb what "const"
+                  then match t with TArr _ _ => Some (IThunkConst t) | _ => None end
+                  else Some (IThunkSym what t) in
+        match it with
+        | Some x => push_then x stk st3
+        | None => RErr EOther st3
+        end
+    | _ => RErr EOther st3
+    end.
+
+  (* the first token [t] after a run of opening parentheses *)
+  Definition handle_head (t : string) (stk : stack) (st1 : pstate) : res (option item) :=
+    match alookup t interpreted_table with
+    | Some (HOp o) => push_then (IOp o) stk st1
+    | Some HLet => handle_let stk st1
+    | Some (HQuant fa) => handle_quant fa stk st1
+    | Some HAnnot => handle_annot stk st1
+    | Some HUnderscore => handle_underscore stk st1
+    | Some HAs => handle_as stk st1
+    | None => do a , st2 <- atom t st1 ;; push_then a stk st2
+    end.
+
+  (* while tk == "(": stack.append([]); tk = tokens.consume() *)
+  Fixpoint opens (n : nat) (stk : stack) (st : pstate) {struct n} : res (option item) :=
+    match n with
+    | O => RErr EUnmodelled st
+    | S n' =>
+        do t , st1 <- next_tok st ;;
+        if String.eqb t "(" then opens n' ([] :: stk) st1 else handle_head t stk st1
+    end.
+
+  (* the closing parenthesis: fun = lst.pop(0); res = fun( *lst ) *)
+  Definition handle_close (stk : stack) (s1 : pstate) : res (option item) :=
+    match stk with
+    | [] => RErr ESyntax s1
+    | lst :: rest =>
+        match rev lst with
+        | [] => RErr ESyntax s1
+        | fn :: args =>
+            do r , s2 <- call fn args s1 ;;
+            match rest with
+            | [] => ROk (Some r) s2
+            | l :: rest' => K ((r :: l) :: rest') s2
+            end
+        end
+    end.
+
+  Definition handle_atom (tk : string) (stk : stack) (s1 : pstate) : res (option item) :=
+    do a , s2 <- atom tk s1 ;;
+    match stk with
+    | [] => ROk (Some a) s2
+    | l :: rest => K ((a :: l) :: rest) s2
+    end.
+
+  Definition step (stk : stack) (s : pstate) : res (option item) :=
+    catch_stop (
+      do tk , s1 <- next_maybe s ;;
+      if String.eqb tk "(" then opens (fuel_of s1) ([] :: stk) s1
+      else if String.eqb tk ")" then handle_close stk s1
+      else handle_atom tk stk s1).
+End Reader.
+
 Fixpoint get_expr (fuel : nat) (stk : stack) (s : pstate) {struct fuel} : res (option item) :=
   match fuel with
   | O => RErr EUnmodelled s
-  | S f =>
-    catch_stop (
-      do tk , s1 <- next_maybe s ;;
-      if String.eqb tk "(" then
-        (* while tk == "(": stack.append([]); tk = tokens.consume() *)
-        (fix opens (n : nat) (stk : stack) (st : pstate) {struct n} : res (option item) :=
-           match n with
-           | O => RErr EUnmodelled st
-           | S n' =>
-               do t , st1 <- next_tok st ;;
-               if String.eqb t "(" then opens n' ([] :: stk) st1
-               else
-                 match alookup t interpreted_table with
-                 | Some (HOp o) =>
-                     match push_item (IOp o) stk with
-                     | Some stk' => get_expr f stk' st1
-                     | None => RErr EOther st1
-                     end
-                 | Some HLet =>
-                     do _ , st2 <- consume_opening st1 ;;
-                     do _ , st3 <- consume_opening st2 ;;
-                     (* parallel let: the bound terms are read in the enclosing scope and the names
-                        bound after the last binding; EXTENSION: a name that means nothing in the
-                        enclosing scope is visible to the following bindings of the same let *)
-                     (fix bindings (k : nat) (cur : string) (vals : list (string * item)) (early : list string)
-                                   (sb : pstate) {struct k} : res (option item) :=
-                        match k with
-                        | O => RErr EUnmodelled sb
-                        | S k' =>
-                            if String.eqb cur ")" then
-                              do _ , sb1 <- let_finish vals early sb ;;
-                              match push_items [IExitLet; IKeys (map fst vals)] stk with
-                              | Some stk' => get_expr f stk' sb1
-                              | None => RErr EOther sb1
-                              end
-                            else if negb (String.eqb cur "(") then RErr ESyntax sb
-                            else
-                              do vname , sb1 <- parse_atom sb ;;
-                              do e , sb2 <- not_none (get_expr f [] sb1) ;;
-                              let is_early := negb (str_in vname (map fst vals)) &&
-                                              match cache_get vname sb2 with None => true | Some _ => false end in
-                              let sb3 := if is_early then cache_bind vname e sb2 else sb2 in
-                              do _ , sb4 <- consume_closing sb3 ;;
-                              do c , sb5 <- next_tok sb4 ;;
-                              bindings k' c (aset vname e vals) (if is_early then vname :: early else early) sb5
-                        end) (fuel_of st3) "(" [] [] st3
-                 | Some (HQuant fa) =>
-                     do _ , st2 <- consume_opening st1 ;;
-                     do _ , st3 <- consume_opening st2 ;;
-                     (fix qvars (k : nat) (cur : string) (vrs : list (string * var)) (sb : pstate) {struct k}
-                        : res (option item) :=
-                        match k with
-                        | O => RErr EUnmodelled sb
-                        | S k' =>
-                            if String.eqb cur ")" then
-                              match push_items [IExitQuant; IQuant fa; IVars vrs] stk with
-                              | Some stk' => get_expr f stk' sb
-                              | None => RErr EOther sb
-                              end
-                            else if negb (String.eqb cur "(") then RErr ESyntax sb
-                            else
-                              do vname , sb1 <- parse_atom sb ;;
-                              do pt , sb2 <- parse_ty (fuel_of sb1) sb1 ;;
-                              match pt with
-                              | PTy t =>
-                                  do v , sb3 <- quantified_var vname t sb2 ;;
-                                  let var := match v with T (OSymbol n ty) _ => (n, ty) | _ => (vname, t) end in
-                                  let sb4 := cache_bind vname (ITerm v) sb3 in
-                                  do _ , sb5 <- consume_closing sb4 ;;
-                                  do c , sb6 <- next_tok sb5 ;;
-                                  qvars k' c (vrs ++ [(vname, var)]) sb6
-                              | _ => RErr EValue sb2
-                              end
-                        end) (fuel_of st3) "(" [] st3
-                 | Some HAnnot =>
-                     do e , st2 <- not_none (get_expr f [] st1) ;;
-                     match e with
-                     | ITerm term =>
-                         do tk2 , st3 <- next_tok st2 ;;
-                         do _ , st4 <- annot_loop (fuel_of st3) tk2 st3 ;;
-                         match stk with
-                         | [] :: _ =>
-                             match push_item (IThunkTerm term) stk with
-                             | Some stk' => get_expr f stk' (push_back ")" st4)
-                             | None => RErr EOther st4
-                             end
-                         | _ => RErr EOther st4
-                         end
-                     | _ => RErr EOther st2
-                     end
-                 | Some HUnderscore =>
-                     do op , st2 <- parse_atom st1 ;;
-                     let int_arg (st : pstate) (k : Z -> pstate -> res (option item)) : res (option item) :=
-                         do a , st' <- parse_atom st ;;
-                         match py_int a with Some z => k z st' | None => RErr ESyntax st' end in
-                     let push_thunk (x : item) (st : pstate) : res (option item) :=
-                         match push_item x stk with
-                         | Some stk' => get_expr f stk' st
-                         | None => RErr EOther st
-                         end in
-                     if String.eqb op "extract" then
-                       do send , st3 <- parse_atom st2 ;;
-                       do sstart , st4 <- parse_atom st3 ;;
-                       match py_int sstart, py_int send with
-                       | Some a, Some b => push_thunk (IThunkIdx (FExtract a b)) st4
-                       | _, _ => RErr ESyntax st4
-                       end
-                     else if String.eqb op "zero_extend" then
-                       int_arg st2 (fun z st => push_thunk (IThunkIdx (FZext z)) st)
-                     else if String.eqb op "repeat" then
-                       int_arg st2 (fun z st => push_thunk (IThunkIdx (FRepeat z)) st)
-                     else if String.eqb op "rotate_left" then
-                       int_arg st2 (fun z st => push_thunk (IThunkIdx (FRol z)) st)
-                     else if String.eqb op "rotate_right" then
-                       int_arg st2 (fun z st => push_thunk (IThunkIdx (FRor z)) st)
-                     else if String.eqb op "sign_extend" then
-                       int_arg st2 (fun z st => push_thunk (IThunkIdx (FSext z)) st)
-                     else if starts_with "bv" op then
-                       match py_int (drop 2 op) with
-                       | None => RErr ESyntax st2
-                       | Some v =>
-                           int_arg st2 (fun w st =>
-                             match mk_bv v w with
-                             | Some c => push_thunk (IThunkTerm c) st
-                             | None => RErr EValue st
-                             end)
-                       end
-                     else if String.eqb op "to_bv" then
-                       match stk with
-                       | [] => RErr EOther st2
-                       | _ :: stk1 =>
-                           int_arg st2 (fun w st =>
-                             do _ , st3 <- consume_closing st ;;
-                             do fnv , st4 <- get_expr f [] st3 ;;
-                             match fnv with
-                             | Some (ITerm (T (OIntC v) _)) =>
-                                 match (if (0 <=? v)%Z then mk_bv v w else mk_sbv v w) with
-                                 | Some c =>
-                                     match push_item (IThunkTerm c) stk1 with
-                                     | Some stk' => get_expr f stk' st4
-                                     | None => RErr EOther st4
-                                     end
-                                 | None => RErr EValue st4
-                                 end
-                             | Some (ITerm _) => RErr ESyntax st4
-                             | _ => RErr EOther st4
-                             end)
-                       end
-                     else RErr ESyntax st2
-                 | Some HAs =>
-                     do what , st2 <- parse_atom st1 ;;
-                     do pt , st3 <- parse_ty (fuel_of st2) st2 ;;
-                     match pt with
-                     | PTy t =>
-                         let it := if String.eqb what "const"
-                                   then match t with TArr _ _ => Some (IThunkConst t) | _ => None end
-                                   else Some (IThunkSym what t) in
-                         match it with
-                         | Some x => match push_item x stk with
-                                     | Some stk' => get_expr f stk' st3
-                                     | None => RErr EOther st3
-                                     end
-                         | None => RErr EOther st3
-                         end
-                     | _ => RErr EOther st3
-                     end
-                 | None =>
-                     do a , st2 <- atom t st1 ;;
-                     match push_item a stk with
-                     | Some stk' => get_expr f stk' st2
-                     | None => RErr EOther st2
-                     end
-                 end
-           end) (fuel_of s1) ([] :: stk) s1
-      else if String.eqb tk ")" then
-        match stk with
-        | [] => RErr ESyntax s1
-        | lst :: rest =>
-            match rev lst with
-            | [] => RErr ESyntax s1
-            | fn :: args =>
-                do r , s2 <- call fn args s1 ;;
-                match rest with
-                | [] => ROk (Some r) s2
-                | l :: rest' => get_expr f ((r :: l) :: rest') s2
-                end
-            end
-        end
-      else
-        do a , s2 <- atom tk s1 ;;
-        match stk with
-        | [] => ROk (Some a) s2
-        | l :: rest => get_expr f ((a :: l) :: rest) s2
-        end)
+  | S f => step (get_expr f) stk s
   end.
 
 Definition expr_fuel (s : pstate) : nat := S (fuel_of s).
